@@ -1642,3 +1642,112 @@ def pairing_rule(crate, prop, rule="C03.R1"):
         r.fail(prop, "anchor-missing type reference templates", "no template referring to a type through TS::name()/inline() found")
     r.floor = 8
     return r
+
+
+# ------------------------------------------------------------------ container settings reach DerivedTS
+
+_PEEL = [r"clone::Clone::clone$", r"option::Option::<T>::(cloned|copied|as_ref|as_deref|map|as_mut)$", r"option::Option::<&T>::(cloned|copied)$", r"borrow::ToOwned::to_owned$",
+         r"slice::<impl \[T\]>::to_vec$", r"convert::(Into::into|From::from)$", r"ops::Deref::deref$", r"string::ToString::to_string$"]
+
+
+def _setting_origin(crate, b, op, depth=0):
+    """where a value put into DerivedTS comes from, through clones/borrows/`Option` adaptors and through a struct of the
+    crate that merely carries it: -> list of origin descriptions"""
+    cur = op
+    for _ in range(8):
+        desc, root = panics.operand_origin_ex(b, cur)
+        m = re.match(r"^call (.+)$", desc)
+        if not m:
+            break
+        nxt = None
+        for blk, t in b.calls():
+            if t["dst"]["l"] == root and not b.is_cleanup(blk) and fn_matches(t, *_PEEL) and t["args"]:
+                nxt = t["args"][0]
+        if nxt is None:
+            break
+        cur = nxt
+    desc, root = panics.operand_origin_ex(b, cur)
+    m = re.match(r"^field (\S+)\.(\w+)$", desc)
+    if m and not re.search(r"Attr$", m.group(1)) and depth < 3:
+        # carried by a struct of the crate: follow every place where that struct is built
+        out = []
+        for bx in crate.bodies:
+            for blk in range(bx.n):
+                if bx.is_cleanup(blk):
+                    continue
+                for st in bx.stmts(blk):
+                    if st["k"] == "assign" and st["rv"]["k"] == "agg" and (st["rv"].get("adt") or "") == m.group(1) and m.group(2) in (st["rv"].get("fields") or []):
+                        out += _setting_origin(crate, bx, st["rv"]["ops"][st["rv"]["fields"].index(m.group(2))], depth + 1)
+        if out:
+            return out
+    return [desc]
+
+
+def passthrough_fields_rule(crate, prop, rule="C07.R7"):
+    """what the container attribute says about export, path, concretisation and bounds holds whatever shape the body takes"""
+    r = Result(rule, "every DerivedTS value built in macros/src/types takes `export`, `export_to`, `concrete` and `bound` from the field of the same name of a container attribute (StructAttr / EnumAttr) - directly, cloned, through Option adaptors, or through a struct of the crate that only carries the settings (followed to where that struct is filled): a body that is replaced (`type = ..`, `as = ..`) or taken from elsewhere must not lose them")
+    FIELDS = ("export", "export_to", "concrete", "bound")
+    n = 0
+    for b in crate.bodies:
+        if not b.path.startswith("types::"):
+            continue
+        for blk in range(b.n):
+            if b.is_cleanup(blk):
+                continue
+            for st in b.stmts(blk):
+                if st["k"] != "assign" or st["rv"]["k"] != "agg" or not (st["rv"].get("adt") or "").endswith("DerivedTS") or not st["rv"].get("fields"):
+                    continue
+                n += 1
+                f, l = M.user_span(st.get("span") or b.span)
+                fn = re.sub(r"::\{closure#\d+\}", "", b.path)
+                for k in FIELDS:
+                    if k not in st["rv"]["fields"]:
+                        continue
+                    op = st["rv"]["ops"][st["rv"]["fields"].index(k)]
+                    if op_place(op) is None:
+                        srcs = ["constant"]
+                    else:
+                        srcs = _setting_origin(crate, b, op)
+                    good = [s for s in srcs if re.search(r"(Struct|Enum)Attr\.%s$" % k, s)]
+                    bad = [s for s in srcs if s not in good and (s == "constant" or re.match(r"^field \S+Attr\.\w+$", s) or s.startswith("aggregate"))]
+                    verdict = "ok" if good and len(good) == len(srcs) else "BAD" if bad else "undecided"
+                    r.inst(fn=b.path, field=k, comes_from=sorted(set(srcs)), verdict=verdict, where="%s:%s" % (f, l))
+                    if verdict == "BAD":
+                        r.fail(prop, "container-setting-dropped %s %s" % (fn, k),
+                               "DerivedTS.%s comes from %s instead of the container attribute's `%s`: e.g. `#[ts(type = \"string\", concrete(T = i32))] struct Token<T>` becomes generic over T again (`type Token<T> = string;`, referenced as `Token<number>`)" % (k, sorted(set(bad)), k),
+                               f, l)
+    if n == 0:
+        r.fail(prop, "anchor-missing DerivedTS values", "no DerivedTS value built in macros/src/types")
+    r.stats["literals"] = n
+    r.floor = 12
+    return r
+
+
+def docs_init_rule(crate, prop, rule="C15.R7"):
+    """one item, one comment: the documentation of the declaration is the item's own"""
+    r = Result(rule, "every DerivedTS value built in macros/src/types takes `docs` from the `docs` of a container attribute (StructAttr / EnumAttr), unchanged - directly, cloned, or through a struct of the crate that carries it: nothing else (a field's or a variant's comment, a concatenation) becomes the comment of the declaration")
+    n = 0
+    for b in crate.bodies:
+        if not b.path.startswith("types::"):
+            continue
+        for blk in range(b.n):
+            if b.is_cleanup(blk):
+                continue
+            for st in b.stmts(blk):
+                if st["k"] != "assign" or st["rv"]["k"] != "agg" or not (st["rv"].get("adt") or "").endswith("DerivedTS") or "docs" not in (st["rv"].get("fields") or []):
+                    continue
+                n += 1
+                op = st["rv"]["ops"][st["rv"]["fields"].index("docs")]
+                srcs = _setting_origin(crate, b, op) if op_place(op) is not None else ["constant"]
+                good = [s for s in srcs if re.search(r"(Struct|Enum)Attr\.docs$", s)]
+                verdict = "ok" if good and len(good) == len(srcs) else "undecided" if all(s.startswith("param") or s.startswith("local") for s in srcs) else "BAD"
+                f, l = M.user_span(st.get("span") or b.span)
+                fn = re.sub(r"::\{closure#\d+\}", "", b.path)
+                r.inst(fn=b.path, docs_from=sorted(set(srcs)), verdict=verdict, where="%s:%s" % (f, l))
+                if verdict == "BAD":
+                    r.fail(prop, "docs-slot-init %s" % fn,
+                           "DerivedTS.docs is initialised from %s: the declaration would carry something other than the item's own doc comment (two `/** */` blocks, or a member's text in front of `export type`)" % sorted(set(srcs)), f, l)
+    if n == 0:
+        r.fail(prop, "anchor-missing DerivedTS values", "no DerivedTS value built in macros/src/types")
+    r.floor = 12
+    return r
